@@ -451,6 +451,22 @@ func (g *c08Gen) otherStore(store string) string {
 	return store
 }
 
+// addVeto makes an entity constraint veto one of the changes the transaction attempts (on the store
+// the operation names or on the other store of its family: parent event / child flow)
+func (g *c08Gen) addVeto(t *hTx) {
+	for try := 0; try < 4; try++ {
+		op := t.Ops[g.r.intn(len(t.Ops))]
+		if ch, ok := map[string]string{"C": "C", "UP": "U", "D": "D"}[op.Kind]; ok {
+			store := op.Store
+			if g.r.chance(45) {
+				store = g.otherStore(store)
+			}
+			t.Vetoes = append(t.Vetoes, hVeto{Store: store, Change: ch, Id: op.Id})
+			return
+		}
+	}
+}
+
 func (g *c08Gen) genTx(facts []string) *hTx {
 	g.sh = shadowFromFacts(g.w, facts)
 	t := &hTx{Sys: g.r.chance(30)}
@@ -496,14 +512,7 @@ func (g *c08Gen) genTx(facts []string) *hTx {
 		t.PreCommitErr = true
 	}
 	if g.r.chance(9) {
-		op := t.Ops[g.r.intn(len(t.Ops))]
-		if ch, ok := map[string]string{"C": "C", "UP": "U", "D": "D"}[op.Kind]; ok {
-			store := op.Store
-			if g.r.chance(45) {
-				store = g.otherStore(store)
-			}
-			t.Vetoes = append(t.Vetoes, hVeto{Store: store, Change: ch, Id: op.Id})
-		}
+		g.addVeto(t)
 	}
 	if g.r.chance(7) {
 		// an operation built without looking at the database
